@@ -396,3 +396,40 @@ func ParamCorpus(dir string) []CorpusEntry {
 		{Name: "param-types", Spec: writeSpec(filepath.Join(dir, "param-types"), "openapi", spec2), Group: "param-matrix"},
 	}
 }
+
+// ResponseCorpus: status sets with and without default, inline / component /
+// alias responses shared by several operations, headers, JSON and raw bodies.
+func ResponseCorpus(dir string) []CorpusEntry {
+	spec := specHead + `paths:
+  /pets:
+    get:
+      responses:
+        '200': {description: ok, headers: {X-Next: {schema: {type: string}}, X-Total: {required: true, schema: {type: string}}}, content: {application/json: {schema: {$ref: '#/components/schemas/Pet'}}}}
+        '204': {description: empty}
+        '404': {$ref: '#/components/responses/NotFound'}
+        default: {$ref: '#/components/responses/Error'}
+    post:
+      responses:
+        '201': {$ref: '#/components/responses/Created'}
+        '400': {$ref: '#/components/responses/NotFound'}
+  /pets/:
+    get:
+      responses:
+        '200': {description: ok}
+        '404': {$ref: '#/components/responses/NotFound'}
+  /raw:
+    get:
+      responses:
+        '200': {description: raw, content: {application/octet-stream: {schema: {type: string, format: binary}}}}
+        default: {description: other}
+components:
+  schemas:
+    Pet: {type: object, required: [name], properties: {name: {type: string}, tag: {type: string}}}
+    Err: {type: object, properties: {message: {type: string}}}
+  responses:
+    NotFound: {description: nf, content: {application/json: {schema: {$ref: '#/components/schemas/Err'}}}}
+    Error: {description: err, headers: {X-Err: {schema: {type: string}}}, content: {application/json: {schema: {$ref: '#/components/schemas/Err'}}}}
+    Created: {description: created, headers: {Location: {required: true, schema: {type: string}}}}
+`
+	return []CorpusEntry{{Name: "resp-matrix", Spec: writeSpec(filepath.Join(dir, "resp-matrix"), "openapi", spec), Group: "response-matrix"}}
+}
